@@ -7,6 +7,7 @@ use std::rc::Rc;
 use text2num::digit_string::DigitString;
 use text2num::error::Error;
 use text2num::lang::*;
+#[cfg(text2num_verif)]
 use text2num::verif_hooks::{tokenize, BasicToken};
 use text2num::*;
 
@@ -465,6 +466,10 @@ pub fn exec(langs: &Langs, line: &str) -> String {
                 run_scan(l, parse_thr(thr), &parse_tokens(toks))
             })
             .unwrap_or("no-lang".into()),
+            // the build without `--cfg text2num_verif` (exactly what a user compiles) has no tokenizer hook
+            #[cfg(not(text2num_verif))]
+            ["occ", _, _, _] | ["tok", _] => "NOHOOK".into(),
+            #[cfg(text2num_verif)]
             ["occ", lc, thr, text] => with_lang!(langs, lc, l, {
                 // the pipeline of replace_numbers_in_text, stopped before the replacement
                 let t = unescape(text);
@@ -479,6 +484,7 @@ pub fn exec(langs: &Langs, line: &str) -> String {
                 format!("{}|{}", os.join(","), ts.join(","))
             })
             .unwrap_or("no-lang".into()),
+            #[cfg(text2num_verif)]
             ["tok", text] => {
                 let t = unescape(text);
                 let v: Vec<String> = tokenize(&t)
